@@ -20,6 +20,7 @@ type Term struct {
 	p2   int    // extract: lo
 	name string // variable or uninterpreted-function name
 	size int    // number of tree nodes (saturating), used to decide on sharing
+	h    uint64 // structural hash, computed lazily (0 = not yet)
 }
 
 var (
@@ -78,7 +79,69 @@ func sext64(v uint64, w int) int64 {
 
 // sameTerm is a cheap syntactic-equality test (pointer equality, constants,
 // variables, and a shallow structural comparison).
-func sameTerm(a, b *Term) bool { return sameTermD(a, b, 4) }
+func sameTerm(a, b *Term) bool { return a == b || (sameTermD(a, b, 4) || (a.size > 8 && termEqual(a, b))) }
+
+// hash is a structural hash of the term DAG (memoised in the node).
+func (t *Term) hash() uint64 {
+	if t.h != 0 {
+		return t.h
+	}
+	h := uint64(14695981039346656037)
+	mix := func(v uint64) {
+		h ^= v
+		h *= 1099511628211
+		h ^= h >> 29
+	}
+	for i := 0; i < len(t.op); i++ {
+		mix(uint64(t.op[i]))
+	}
+	mix(uint64(t.w))
+	mix(t.k)
+	mix(uint64(t.p1)<<20 ^ uint64(t.p2))
+	for i := 0; i < len(t.name); i++ {
+		mix(uint64(t.name[i]))
+	}
+	for _, a := range t.args {
+		mix(a.hash())
+	}
+	if h == 0 {
+		h = 1
+	}
+	t.h = h
+	return h
+}
+
+// termEqual is full structural equality (hash filter first, then a memoised walk).
+func termEqual(a, b *Term) bool {
+	if a == b {
+		return true
+	}
+	if a.hash() != b.hash() {
+		return false
+	}
+	seen := map[[2]*Term]bool{}
+	var eq func(x, y *Term) bool
+	eq = func(x, y *Term) bool {
+		if x == y {
+			return true
+		}
+		if x.hash() != y.hash() || x.op != y.op || x.w != y.w || x.k != y.k || x.p1 != y.p1 || x.p2 != y.p2 || x.name != y.name || len(x.args) != len(y.args) {
+			return false
+		}
+		key := [2]*Term{x, y}
+		if seen[key] {
+			return true
+		}
+		seen[key] = true
+		for i := range x.args {
+			if !eq(x.args[i], y.args[i]) {
+				return false
+			}
+		}
+		return true
+	}
+	return eq(a, b)
+}
 
 func sameTermD(a, b *Term, d int) bool {
 	if a == b {
@@ -238,6 +301,13 @@ func mkBin(op string, x, y *Term) *Term {
 		if (op == "bvshl" || op == "bvlshr") && y.op == "const" && y.k >= uint64(w) {
 			return mkConst(0, w)
 		}
+		if (op == "bvand" || op == "bvor" || ((op == "bvlshr" || op == "bvshl") && yc)) && (xc || yc) {
+			t := node(op, w, x, y)
+			if z, o := knownBits(t, 6); z|o == mask(w) {
+				return mkConst(o, w)
+			}
+			return t
+		}
 	}
 	return node(op, w, x, y)
 }
@@ -317,6 +387,19 @@ func knownBits(t *Term, depth int) (zeros, ones uint64) {
 		z1, o1 := knownBits(hi, depth-1)
 		z2, o2 := knownBits(lo, depth-1)
 		return (z1<<uint(lo.w) | z2) & m, (o1<<uint(lo.w) | o2) & m
+	case "bvlshr", "bvshl":
+		if t.args[1].op != "const" {
+			return 0, 0
+		}
+		k := t.args[1].k
+		if k >= uint64(t.w) {
+			return m, 0
+		}
+		z, o := knownBits(t.args[0], depth-1)
+		if t.op == "bvlshr" {
+			return (z>>k | m&^(m>>k)) & m, o >> k
+		}
+		return (z<<k | (uint64(1)<<k - 1)) & m, (o << k) & m
 	case "extract":
 		if t.args[0].w > 64 {
 			return 0, 0
@@ -366,9 +449,12 @@ func mkEq(x, y *Term) *Term {
 		if y.op == "const" {
 			c, v = y, x
 		}
-		z, o := knownBits(v, 4)
-		if c.k&z != 0 || ^c.k&o != 0 {
+		z, o := knownBits(v, 6)
+		if c.k&z != 0 || ^c.k&mask(x.w)&o != 0 {
 			return termFalse
+		}
+		if z|o == mask(x.w) {
+			return mkBool(o == c.k)
 		}
 	}
 	if x.w == 0 {
